@@ -163,15 +163,102 @@ func (p *pkg) callsIn(fn string) []string {
 
 // funcDecl finds a function or method declaration by name.
 func (p *pkg) funcDecl(fn string) *ast.FuncDecl {
+	// deterministic: map iteration order must not decide which declaration is read
+	var all []*ast.FuncDecl
 	for _, f := range p.files {
 		for _, d := range f.Decls {
 			if fd, ok := d.(*ast.FuncDecl); ok && fd.Name.Name == fn && fd.Body != nil {
+				all = append(all, fd)
+			}
+		}
+	}
+	if len(all) == 1 {
+		return all[0]
+	}
+	var plain []*ast.FuncDecl
+	for _, fd := range all {
+		if fd.Recv == nil {
+			plain = append(plain, fd)
+		}
+	}
+	if len(plain) == 1 {
+		return plain[0]
+	}
+	if len(all) == 0 {
+		die("func %s not found", fn)
+	}
+	die("func %s is ambiguous (%d declarations)", fn, len(all))
+	return nil
+}
+
+// funcDeclRecv: func or method `fn`; recv == "" selects the package-level function, otherwise the
+// method whose receiver type is recv (pointer or value).
+func (p *pkg) funcDeclRecv(fn, recv string) *ast.FuncDecl {
+	for _, f := range p.files {
+		for _, d := range f.Decls {
+			fd, ok := d.(*ast.FuncDecl)
+			if !ok || fd.Name.Name != fn || fd.Body == nil {
+				continue
+			}
+			r := ""
+			if fd.Recv != nil && len(fd.Recv.List) == 1 {
+				r = strings.TrimPrefix(exprText(fd.Recv.List[0].Type), "*")
+			}
+			if r == recv {
 				return fd
 			}
 		}
 	}
-	die("func %s not found", fn)
+	die("func %s (receiver %q) not found", fn, recv)
 	return nil
+}
+
+// fieldLiteralIn: the string literal assigned to `field:` in a composite literal inside package-level func fn
+func (p *pkg) fieldLiteralIn(fn, field string) string {
+	res, found := "", false
+	ast.Inspect(p.funcDeclRecv(fn, "").Body, func(n ast.Node) bool {
+		kv, ok := n.(*ast.KeyValueExpr)
+		if !ok {
+			return true
+		}
+		if id, ok := kv.Key.(*ast.Ident); ok && id.Name == field {
+			if lit, ok := kv.Value.(*ast.BasicLit); ok && lit.Kind == token.STRING {
+				res, _ = strconv.Unquote(lit.Value)
+				found = true
+			} else {
+				die("%s in %s is not a string literal", field, fn)
+			}
+		}
+		return true
+	})
+	if !found {
+		die("no %s: in %s", field, fn)
+	}
+	return res
+}
+
+// stringsComparedWith: string literals compared (op) with an expression containing marker in method fn of recv
+func (p *pkg) stringsComparedWith(fn, marker string, op token.Token, recv string) []string {
+	var out []string
+	ast.Inspect(p.funcDeclRecv(fn, recv).Body, func(n ast.Node) bool {
+		b, ok := n.(*ast.BinaryExpr)
+		if !ok || b.Op != op {
+			return true
+		}
+		lit, ok := b.Y.(*ast.BasicLit)
+		if !ok || lit.Kind != token.STRING {
+			return true
+		}
+		if strings.Contains(exprText(b.X), marker) {
+			v, _ := strconv.Unquote(lit.Value)
+			out = append(out, v)
+		}
+		return true
+	})
+	if len(out) == 0 {
+		die("no string comparison with %s in %s", marker, fn)
+	}
+	return out
 }
 
 // mapKeysIn: string keys of composite literals of type `typ` and of `x["key"] = …` assignments in func fn.
@@ -268,6 +355,8 @@ func exprText(e ast.Expr) string {
 		return v.Name
 	case *ast.SelectorExpr:
 		return exprText(v.X) + "." + v.Sel.Name
+	case *ast.StarExpr:
+		return "*" + exprText(v.X)
 	case *ast.CallExpr:
 		var a []string
 		for _, x := range v.Args {
@@ -300,6 +389,218 @@ func bytesLit(s string) string {
 		parts[i] = strconv.Itoa(int(s[i]))
 	}
 	return "[" + strings.Join(parts, ", ") + "]"
+}
+
+
+// ---- C18: struct tag tables and JSON schemas -> GenApi.lean
+
+// structType finds `type <name> struct {…}` in the package.
+func (p *pkg) structType(name string) *ast.StructType {
+	for _, f := range p.files {
+		for _, d := range f.Decls {
+			gd, ok := d.(*ast.GenDecl)
+			if !ok || gd.Tok != token.TYPE {
+				continue
+			}
+			for _, s := range gd.Specs {
+				ts := s.(*ast.TypeSpec)
+				if ts.Name.Name == name {
+					if st, ok := ts.Type.(*ast.StructType); ok {
+						return st
+					}
+				}
+			}
+		}
+	}
+	die("struct type %s not found", name)
+	return nil
+}
+
+// anonStructIn: the first anonymous struct type literal inside func fn (tq/verify.go's request body)
+func (p *pkg) anonStructIn(fn string) *ast.StructType {
+	var res *ast.StructType
+	ast.Inspect(p.funcDeclRecv(fn, ""), func(n ast.Node) bool {
+		if st, ok := n.(*ast.StructType); ok && res == nil {
+			res = st
+		}
+		return true
+	})
+	if res == nil {
+		die("no struct literal in %s", fn)
+	}
+	return res
+}
+
+// fieldTable: (Go name, JSON name, omitempty) per exported field in declaration order, `json:"-"` skipped;
+// embedded fields and options other than omitempty abort the declaration (fail closed).
+func fieldTable(st *ast.StructType) string {
+	var rows []string
+	for _, f := range st.Fields.List {
+		if len(f.Names) == 0 {
+			die("embedded field")
+		}
+		tag := ""
+		if f.Tag != nil {
+			t, err := strconv.Unquote(f.Tag.Value)
+			if err != nil {
+				die("tag %s", f.Tag.Value)
+			}
+			tag = reflectTag(t, "json")
+		}
+		for _, n := range f.Names {
+			if !ast.IsExported(n.Name) {
+				continue
+			}
+			js, omit := n.Name, false
+			if tag == "-" {
+				continue
+			}
+			if tag != "" {
+				parts := strings.Split(tag, ",")
+				if parts[0] != "" {
+					js = parts[0]
+				}
+				for _, o := range parts[1:] {
+					if o == "omitempty" {
+						omit = true
+					} else {
+						die("json tag option %q", o)
+					}
+				}
+			}
+			rows = append(rows, fmt.Sprintf("(%q, %q, %v)", n.Name, js, omit))
+		}
+	}
+	return "[" + strings.Join(rows, ", ") + "]"
+}
+
+func reflectTag(tag, key string) string {
+	for tag != "" {
+		i := 0
+		for i < len(tag) && tag[i] == ' ' {
+			i++
+		}
+		tag = tag[i:]
+		if tag == "" {
+			break
+		}
+		i = 0
+		for i < len(tag) && tag[i] > ' ' && tag[i] != ':' && tag[i] != '"' {
+			i++
+		}
+		if i == 0 || i+1 >= len(tag) || tag[i] != ':' || tag[i+1] != '"' {
+			break
+		}
+		name := tag[:i]
+		tag = tag[i+1:]
+		i = 1
+		for i < len(tag) && tag[i] != '"' {
+			if tag[i] == '\\' {
+				i++
+			}
+			i++
+		}
+		if i >= len(tag) {
+			break
+		}
+		q := tag[:i+1]
+		tag = tag[i+1:]
+		if name == key {
+			v, _ := strconv.Unquote(q)
+			return v
+		}
+	}
+	return ""
+}
+
+// schemaLean translates the JSON-Schema fragment used by the published LFS API schemas; any keyword
+// outside that fragment aborts the declaration.
+func schemaLean(v interface{}) string {
+	m, ok := v.(map[string]interface{})
+	if !ok {
+		die("schema is not an object")
+	}
+	ty, props, req, items, min, addl := "none", "[]", "[]", "none", "none", "true"
+	var keys []string
+	for k := range m {
+		keys = append(keys, k)
+	}
+	sortStrings(keys)
+	for _, k := range keys {
+		x := m[k]
+		switch k {
+		case "$schema", "title", "description":
+		case "type":
+			t, _ := x.(string)
+			switch t {
+			case "object", "array", "string", "number", "boolean", "null":
+				ty = "(some .n" + t + ")"
+			default:
+				die("schema type %v", x)
+			}
+		case "properties":
+			pm, ok := x.(map[string]interface{})
+			if !ok {
+				die("properties")
+			}
+			var pk []string
+			for n := range pm {
+				pk = append(pk, n)
+			}
+			sortStrings(pk)
+			var rows []string
+			for _, n := range pk {
+				rows = append(rows, fmt.Sprintf("(%q, %s)", n, schemaLean(pm[n])))
+			}
+			props = "[" + strings.Join(rows, ",\n    ") + "]"
+		case "required":
+			l, ok := x.([]interface{})
+			if !ok {
+				die("required")
+			}
+			var rs []string
+			for _, e := range l {
+				rs = append(rs, fmt.Sprintf("%q", e.(string)))
+			}
+			req = "[" + strings.Join(rs, ", ") + "]"
+		case "items":
+			items = "(some " + schemaLean(x) + ")"
+		case "minimum":
+			f, ok := x.(float64)
+			if !ok || f != float64(int64(f)) {
+				die("minimum %v", x)
+			}
+			min = fmt.Sprintf("(some %d)", int64(f))
+		case "additionalProperties":
+			b, ok := x.(bool)
+			if !ok {
+				die("additionalProperties %v", x)
+			}
+			addl = fmt.Sprint(b)
+		default:
+			die("schema keyword %q is outside the modelled fragment", k)
+		}
+	}
+	return fmt.Sprintf("(Api.Sch.mk %s %s %s %s %s %s)", ty, props, req, items, min, addl)
+}
+
+func readSchema(repo, pkgdir, name string) string {
+	a, err := os.ReadFile(filepath.Join(repo, pkgdir, "schemas", name))
+	if err != nil {
+		die("%v", err)
+	}
+	b, err := os.ReadFile(filepath.Join(repo, "docs", "api", "schemas", name))
+	if err != nil {
+		die("%v", err)
+	}
+	if string(a) != string(b) {
+		die("%s: the copy used by the %s tests differs from the published docs/api/schemas copy", name, pkgdir)
+	}
+	var v interface{}
+	if err := json.Unmarshal(a, &v); err != nil {
+		die("%s: %v", name, err)
+	}
+	return strings.ReplaceAll(schemaLean(v), ".n", ".")
 }
 
 var out strings.Builder
@@ -611,6 +912,53 @@ func main() {
 	emit("credInputKeys", func() string {
 		return "def credInputKeys : List Bytes := " + bytesList(crd.mapKeysIn("GetCredentialHelper", "Creds"))
 	})
+	// ---- C18: request structs and published schemas -> GenApi.lean
+	genOut := out.String()
+	out.Reset()
+	out.WriteString("-- GENERATED by extract/main.go from the working tree of /repo; regenerated on every check run; do not edit\nimport LfsModel.Api\nnamespace Gen\n")
+	lk := safeLoad(filepath.Join(repo, "locking"))
+	for _, t := range []string{"batchRequest", "batchRef", "Transfer"} {
+		t := t
+		emit(t+"Fields", func() string { return fmt.Sprintf("def %sFields : Api.FieldTbl := %s", t, fieldTable(tq.structType(t))) })
+	}
+	emit("verifyRequestFields", func() string {
+		return "def verifyRequestFields : Api.FieldTbl := " + fieldTable(tq.anonStructIn("verifyUpload"))
+	})
+	for _, t := range []string{"lockRequest", "unlockRequest", "lockVerifiableRequest", "lockRef"} {
+		t := t
+		emit(t+"Fields", func() string { return fmt.Sprintf("def %sFields : Api.FieldTbl := %s", t, fieldTable(lk.structType(t))) })
+	}
+	emit("batchRequestSchema", func() string {
+		return "def batchRequestSchema : Api.Sch :=\n  " + readSchema(repo, "tq", "http-batch-request-schema.json")
+	})
+	emit("lockCreateRequestSchema", func() string {
+		return "def lockCreateRequestSchema : Api.Sch :=\n  " + readSchema(repo, "locking", "http-lock-create-request-schema.json")
+	})
+	emit("lockDeleteRequestSchema", func() string {
+		return "def lockDeleteRequestSchema : Api.Sch :=\n  " + readSchema(repo, "locking", "http-lock-delete-request-schema.json")
+	})
+	emit("batchHashAlgo", func() string {
+		// the hash algorithm announced in every batch request (tq.Batch) and the ones a response may name
+		return fmt.Sprintf("def batchHashAlgo : String := %q", tq.fieldLiteralIn("Batch", "HashAlgorithm"))
+	})
+	emit("acceptedHashAlgos", func() string {
+		var l []string
+		for _, v := range tq.stringsComparedWith("Batch", "bRes.HashAlgorithm", token.NEQ, "tqClient") {
+			l = append(l, fmt.Sprintf("%q", v))
+		}
+		return "def acceptedHashAlgos : List String := [" + strings.Join(l, ", ") + "]"
+	})
+	emit("lfsMediaType", func() string {
+		lh2 := safeLoad(filepath.Join(repo, "lfshttp"))
+		return fmt.Sprintf("def lfsMediaType : String := %q", lh2.str("MediaType"))
+	})
+	out.WriteString("end Gen\n")
+	if err := os.WriteFile(filepath.Join(filepath.Dir(os.Args[2]), "GenApi.lean"), []byte(out.String()), 0o644); err != nil {
+		fmt.Fprintln(os.Stderr, err)
+		os.Exit(1)
+	}
+	out.Reset()
+	out.WriteString(genOut)
 	out.WriteString("end Gen\n")
 	if err := os.WriteFile(os.Args[2], []byte(out.String()), 0o644); err != nil {
 		fmt.Fprintln(os.Stderr, err)
